@@ -381,6 +381,20 @@ func runC11(k int, rng *Rng) CaseResult {
 	w.ReadSweep()
 	w.SearchSweep(60)
 	w.Invariants("index")
+	// the repaired state is not a property of this handle only: in synchronous mode a handle opened
+	// right now, without any Close (the repairing process may die), finds the collection healthy
+	if !w.failed() && cfg.Async == 0 && rng.P(0.5) {
+		w.Abandon()
+		w.call("Schema", func() { _, err = w.db.Schema(&Rec{}) })
+		if err != nil {
+			w.fail("repair-lost-without-close", "Schema(new handle, no Close)", faultClass, err.Error())
+		}
+		w.abs("abandon-after-repair")
+		if !w.failed() {
+			w.ReadSweep()
+			w.SearchSweep(20)
+		}
+	}
 	// and the repaired state survives a commit + reopen
 	if !w.failed() {
 		w.Reopen(false)
